@@ -412,6 +412,11 @@ def fixed():
                    (NATIVE["i64"], "u64"), (U32, "le::U64"), (U16, "be::U32"), (c_like, "u8"), (NATIVE["i32"], "u16")]:
         z.register(flat_vec(t, l), msg=(t.rust, l) in {("i32", "u16"), ("u64", "u8")})
     z.register(flat_vec(UNIT, "u8"))
+    # items larger than the length type's alignment but not a multiple of it (slot count of a directly mapped
+    # FlatVec whose buffer length is not a multiple of the alignment: only whole alignment units may be occupied)
+    for (t, l) in [(array(U16, 3), "u32"), (array(U8, 5), "u32"), (array(U8, 3), "u16"), (array(U16, 5), "u64"),
+                   (array(U32, 3), "u64"), (array(U8, 9), "u64")]:
+        z.register(flat_vec(t, l))
     # zero-sized items with a 64-bit length: a peer-controlled length must not turn validation into an endless loop
     z.register(T("FlatVec<(), u64>", sized=False, zst=False))
     z.register(T("FlatVec<[u16; 0], usize>", sized=False, zst=False))
